@@ -294,6 +294,13 @@ func init() {
 		}
 		return nil, false
 	}
+	ffiModels["unicode/utf8.DecodeRune"] = func(i *interpreter, fr *frame, args []value) (value, bool) {
+		p := args[0].([]value)
+		if !anySymbolic(p) && len(p) <= 64 {
+			return nil, false
+		}
+		return i.modelDecodeRune(p), true
+	}
 	ffiModels["unicode/utf8.DecodeRuneInString"] = func(i *interpreter, fr *frame, args []value) (value, bool) {
 		s, ok := args[0].(*symStr)
 		if !ok {
@@ -568,3 +575,66 @@ func mkStrOpaque(r []value) value {
 
 var _ = math.Floor
 var _ = token.ADD
+
+// modelDecodeRune mirrors unicode/utf8.DecodeRune on a byte slice whose
+// elements may be symbolic (forks on the class of the lead byte and on the
+// validity of the continuation bytes; the rune value stays symbolic).
+func (i *interpreter) modelDecodeRune(p []value) value {
+	b := i.path.B
+	const runeError = int32(0xFFFD)
+	if len(p) == 0 {
+		return tuple{runeError, int(0)}
+	}
+	t := func(v value) *smt.Term { return b.Resize(i.term(v), 32, false) }
+	c := func(x uint64) *smt.Term { return b.BVC(32, x) }
+	inr := func(x *smt.Term, lo, hi uint64) *smt.Term {
+		return b.And(b.BVBin(smt.OBVUle, c(lo), x), b.BVBin(smt.OBVUle, x, c(hi)))
+	}
+	p0 := t(p[0])
+	if i.decideT(b.BVBin(smt.OBVUlt, p0, c(0x80))) {
+		return tuple{mkScalar(p0, types.Int32), int(1)}
+	}
+	bad := tuple{runeError, int(1)}
+	and := func(x *smt.Term, m uint64) *smt.Term { return b.BVBin(smt.OBVAnd, x, c(m)) }
+	shl := func(x *smt.Term, n uint64) *smt.Term { return b.BVBin(smt.OBVShl, x, c(n)) }
+	or := func(x, y *smt.Term) *smt.Term { return b.BVBin(smt.OBVOr, x, y) }
+	switch {
+	case i.decideT(inr(p0, 0xC2, 0xDF)):
+		if len(p) < 2 {
+			return bad
+		}
+		p1 := t(p[1])
+		if !i.decideT(inr(p1, 0x80, 0xBF)) {
+			return bad
+		}
+		return tuple{mkScalar(or(shl(and(p0, 0x1F), 6), and(p1, 0x3F)), types.Int32), int(2)}
+	case i.decideT(inr(p0, 0xE0, 0xEF)):
+		if len(p) < 3 {
+			return bad
+		}
+		p1, p2 := t(p[1]), t(p[2])
+		lo, hi := c(0x80), c(0xBF)
+		lo = b.Ite(b.Eq(p0, c(0xE0)), c(0xA0), lo)
+		hi = b.Ite(b.Eq(p0, c(0xED)), c(0x9F), hi)
+		ok1 := b.And(b.BVBin(smt.OBVUle, lo, p1), b.BVBin(smt.OBVUle, p1, hi))
+		if !i.decideT(b.And(ok1, inr(p2, 0x80, 0xBF))) {
+			return bad
+		}
+		return tuple{mkScalar(or(or(shl(and(p0, 0x0F), 12), shl(and(p1, 0x3F), 6)), and(p2, 0x3F)), types.Int32), int(3)}
+	case i.decideT(inr(p0, 0xF0, 0xF4)):
+		if len(p) < 4 {
+			return bad
+		}
+		p1, p2, p3 := t(p[1]), t(p[2]), t(p[3])
+		lo, hi := c(0x80), c(0xBF)
+		lo = b.Ite(b.Eq(p0, c(0xF0)), c(0x90), lo)
+		hi = b.Ite(b.Eq(p0, c(0xF4)), c(0x8F), hi)
+		ok1 := b.And(b.BVBin(smt.OBVUle, lo, p1), b.BVBin(smt.OBVUle, p1, hi))
+		if !i.decideT(b.And(ok1, b.And(inr(p2, 0x80, 0xBF), inr(p3, 0x80, 0xBF)))) {
+			return bad
+		}
+		r := or(or(shl(and(p0, 0x07), 18), shl(and(p1, 0x3F), 12)), or(shl(and(p2, 0x3F), 6), and(p3, 0x3F)))
+		return tuple{mkScalar(r, types.Int32), int(4)}
+	}
+	return bad
+}
